@@ -2,6 +2,7 @@ package main
 
 import (
 	"fmt"
+	"math"
 	"math/big"
 	"strings"
 
@@ -80,3 +81,5 @@ func coqFields(fs []ucfg.VerifField) string {
 	}
 	return coqList(xs)
 }
+
+func mathFloat64bits(f float64) uint64 { return math.Float64bits(f) }
